@@ -844,10 +844,20 @@ def h_sorter_faults(ctx):
                     covers["err-path"] = True
                     return
                 examined = set(s.ghost.get("examined", ()))
+                names_ = {n: (short, w) for n, short, w in s.ghost.get("fallible", ())}
+                for n in s.ghost.get("took_err", ()):
+                    m.oblige(s, z3.BoolVal(False), "C12:Err-arm-of-%s-leads-to-an-Ok-return" % names_.get(n, ("?", ""))[0], names_.get(n, ("", where))[1])
                 for n, short, w in s.ghost.get("fallible", ()):
                     m.oblige(s, z3.BoolVal(n in examined), "C12:failure-of-%s-can-be-reported-as-success" % short, w)
                 covers["ok-path"] = True
             m.on_end = on_end
+
+            def on_close(s):
+                # end of a loop iteration: a fallible result produced so far and not yet looked at would be lost here
+                examined = set(s.ghost.get("examined", ()))
+                for n, short, w in s.ghost.get("fallible", ()):
+                    m.oblige(s, z3.BoolVal(n in examined), "C12:failure-of-%s-dropped-inside-a-loop" % short, w)
+            m.on_close = on_close
             self_is_ref = fn.args[0][1].startswith("&")
             args = [Ref(("O", "sorter"), ()) if self_is_ref else st.heap[("O", "sorter")]] + [Opaque("arg") for _ in fn.args[1:]]
             m.run(st, fn, args)
